@@ -71,6 +71,51 @@ fn run_tokio_writes(mode: &Mode, pkts: &[Packet], policy: &[WriteStep]) -> Resul
     Ok((t.written(), rets, tr))
 }
 
+/// a transport error exactly at the start of the j-th encodable packet's frame (everything before it accepted whole): that
+/// write must return the error and leave nothing behind - not on the wire now, and not glued in front of a later frame
+pub struct FailedWrite;
+impl Part for FailedWrite {
+    type Case = (WriteCase, usize);
+    fn name(&self) -> &'static str {
+        "transport-error-at-a-frame-boundary"
+    }
+    fn check(&self, c: &(WriteCase, usize), ev: &mut Local) -> Result<(), Fail> {
+        let mode = if c.0.compressed { Mode::Compressed } else { Mode::Uncompressed };
+        let pkts: Vec<Packet> = packets(&c.0, &mode).into_iter().filter(|p| Codec::new(mode.clone()).encode(p).is_ok()).collect();
+        if pkts.len() < 2 {
+            return Ok(());
+        }
+        let j = c.1 % pkts.len();
+        let mut policy: Vec<WriteStep> = (0..j).map(|_| WriteStep::Accept(4096)).collect();
+        policy.push(WriteStep::Err(std::io::ErrorKind::ConnectionRefused));
+        let mut expected = vec![];
+        for (i, p) in pkts.iter().enumerate() {
+            if i != j {
+                expected.extend_from_slice(&Codec::new(mode.clone()).encode(p).unwrap());
+            }
+        }
+        let m = mode_name(&mode);
+        for (which, r) in [("blocking", run_blocking_writes(&mode, &pkts, &policy)), ("tokio", run_tokio_writes(&mode, &pkts, &policy))] {
+            let (written, rets, _) = r.map_err(|p| Fail::new("c06:panic", format!("{which}: {p}")))?;
+            for (i, r) in rets.iter().enumerate() {
+                ensure!((r == "Ok") == (i != j), "c06:write-returned-error", "{which} ({m}): the transport refused the write of packet #{j} only, but write #{i} returned {r}");
+            }
+            if written != expected {
+                let first = written.iter().zip(expected.iter()).position(|(a, b)| a != b).unwrap_or(written.len().min(expected.len()));
+                fail!("c06:refused-frame-sent-later", "{which} ({m}): the write of packet #{j} failed at its first byte; afterwards the transport holds {} bytes, the other {} frames are {} bytes; first difference at byte {first}", written.len(), pkts.len() - 1, expected.len());
+            }
+        }
+        ev.nontrivial(&(c.0.compressed, &c.0.frames, j));
+        Ok(())
+    }
+    fn to_json(&self, c: &(WriteCase, usize)) -> Value {
+        json!({"writes": case_json(&c.0), "failing_packet": c.1})
+    }
+    fn from_json(&self, v: &Value) -> Option<(WriteCase, usize)> {
+        Some((case_from(v.get("writes")?)?, v.get("failing_packet")?.as_u64()? as usize))
+    }
+}
+
 pub fn judge(c: &WriteCase, ev: &mut Local) -> Result<(), Fail> {
     let mode = if c.compressed { Mode::Compressed } else { Mode::Uncompressed };
     let pkts = packets(c, &mode);
@@ -295,7 +340,7 @@ impl Part for Interleaved {
 }
 
 pub fn parts() -> Vec<Box<dyn DynPart>> {
-    vec![Box::new(Writes), Box::new(Compositions), Box::new(Interleaved)]
+    vec![Box::new(Writes), Box::new(Compositions), Box::new(Interleaved), Box::new(FailedWrite)]
 }
 
 pub fn run(run: &mut Run) {
@@ -342,6 +387,13 @@ pub fn run(run: &mut Run) {
     run.max_shrink_iters = 30;
     run.prop(&Writes, long, n);
     run.max_shrink_iters = 4096;
+    // a transport error at a frame boundary
+    let strat = (any::<bool>(), proptest::collection::vec(frame_strategy(1, 1), 2..8), any::<usize>()).prop_map(|(compressed, frames, j)| {
+        let mode = if compressed { Mode::Compressed } else { Mode::Uncompressed };
+        (WriteCase { compressed, frames: frames.iter().map(|f| frame_bytes(f, &mode)).collect(), policy: vec![] }, j)
+    });
+    let n = run.budget(10_000, 500_000);
+    run.prop(&FailedWrite, strat, n);
     // writes between reads (the connection writes keep-alive replies of its own during reads)
     let strat = (session_strategy(8, 4, 1, false, Some(false)), proptest::collection::vec((0usize..8, frame_strategy(5, 1)), 0..5)).prop_map(|(session, w)| {
         let mode = session.mode();
